@@ -27,7 +27,7 @@ def run(ctx):
     rnd = random.Random(ctx.seed)
     T = []
     tails = [b"", b"\x00", b"\x00\x00\x00", b"\x05\x00", b"\x82\x00"]
-    for r in (1, 2, 3, 4):
+    for r in ((1, 2, 3, 4) if q else (1, 2, 3, 4, 5)):
         for script in itertools.product(OUT, repeat=r):
             for timeout in (2, 6):
                 T.append(drv_udp.run_virtual(script, r, timeout, payload=bytes(rnd.randrange(256) for _ in range(rnd.choice([1, 40, 1400]))) if rnd.random() < 0.2 else b"REQUEST-\x00\xff",
@@ -52,7 +52,7 @@ def run(ctx):
     ctx.evaluations += len(T)
     verdicts = ctx.validate("Trace_Transport", T, chunk=4000)
     ctx.judge(T, verdicts, signature=sig, nontrivial=lambda tr, v: json.dumps([tr["scenario"]["script"], tr["scenario"]["timeout"], tr["scenario"]["mode"]]))
-    ctx.rule = ("every outcome script over {reply, none, late, two, icmp, lost} of length = retries in 1..4 (1554 scripts) x timeout in {2, 6} on the virtual-time "
+    ctx.rule = ("every outcome script over {reply, none, late, two, icmp, lost} of length = retries in 1..4 (1554 scripts; 1..5 = 9330 in the thorough tier) x timeout in {2, 6} on the virtual-time "
                 "loop with recording transports (replies ending in 00 / NULL / endOfMibView octets included), plus %d scripts on real loopback sockets "
                 "(scripted responder, closed port for ICMP, /proc/self/fd balance); distinct = distinct (script, timeout, mode)") % len(lb)
     ctx.exhaustive = True
